@@ -19,9 +19,9 @@ func init() {
 		Run: c12,
 		Explanation: "Decides the shapes that keep composition revisions a faithful, monotonic history: (R12.1) the reconciler writes only Spec.Revision and owner references of listed revisions, creates only NewCompositionRevision(comp, n), whose spec is the converted Composition spec with the number overwritten; (R12.2) the hash label written and the hash compared derive from Composition.Hash() with the same constant truncation; " +
 			"(R12.3) the latest revision number is computed from controller-filtered revisions only after every orphaned revision was re-adopted in place (no adoption of elements of that list is reachable after LatestRevision, and adoption acts on the list's own elements, not copies); (R12.4) every number stored or created is latestRev+1, creation needs the no-existing-revision edge, and a failed renumbering write is never turned into a plain success; " +
-			"(R12.5) LatestRevision skips uncontrolled revisions; the Manual policy returns the pinned revision without any write; revision selectors apply only under Automatic; the XR's revision reference is rewritten only when it differs.",
+			"(R12.5) LatestRevision skips uncontrolled revisions; the Manual policy returns the pinned revision without any write; revision selectors apply only under Automatic; the XR's revision reference is rewritten only when it differs. (R12.6) every success return of the composition reconciler lies behind the List of the stored revisions (or the Composition is being deleted): nothing is decided from remembered state.",
 		NotDecided:  []string{"histories as values (A-B-A numbering over several reconciles)", "crash points between the adoption writes and the renumbering", "hash collisions (Hash() concatenates labels, annotations and spec YAML without separators)", "that Composition labels cannot overwrite the hash label of a new revision (observation, outside the statement)"},
-		Assumptions: []string{"metav1.IsControlledBy compares owner UID", "GeneratedRevisionSpecConverter copies every spec field (generated code)"},
+		Assumptions: []string{"metav1.IsControlledBy compares owner UID"},
 	})
 }
 
@@ -49,6 +49,10 @@ func c12(c *Ctx) {
 		}
 		c.noSuccessBefore(rec, calls(rec, clientList), gone, load.FuncName(rec)+": success only after List", "every success return lies behind the List of the Composition's revisions (or the Composition is being deleted)", "Reconcile can return success without listing the Composition's revisions: the history is not examined")
 	}
+
+	c.R.Rule("R12.7", "the generated Composition ⇄ revision spec converters carry every shared field", 20,
+		"a revision would not be a faithful copy of the Composition content it was cut from (or a Composition rebuilt from a revision would differ)")
+	convertersComplete(c, "that part of the Composition never reaches its revisions", "apis/apiextensions/v1")
 
 	c.R.Rule("R12.1", "revisions are append-only except the number", 5, "an existing revision's content would be edited, or a revision created with content other than the Composition's")
 	if rec != nil && listObj != nil {
